@@ -452,6 +452,10 @@ func runCauseTable(c *Ctx) {
 // internalNotGeneric: a consumed storage fault led to a refusal whose body is not the constant StandardErr body.
 func (w *WSeq) internalNotGeneric(kind string, r *wres, how string) {
 	switch {
+	case kind == "meltquote":
+		// RequestMeltQuote ignores the errors of its two lookups (GetMintQuoteByPaymentHash: "not internal";
+		// GetMeltQuoteByPaymentRequest: "no quote yet"): a consumed fault there is not the cause of a later, legitimate refusal
+		w.c.Hist("storage-fault-swallowed", "meltquote "+how)
 	case r.JV != nil && r.JV.K == 'o' && len(r.JV.O) == 0:
 		// already reported by the shape monitor as C20/error-shape/<kind>/empty-object
 	case r.IsErr && r.Code == 20009 && r.Detail == "quote does not exist":
